@@ -18,7 +18,7 @@ EXPLANATION = (
     "option occurs both in PIKA_COMMANDLINE_OPTIONS and on the command line.")
 ASSUMPTIONS = ["program_options::variables_map::count(k) > 0 iff option k was given", "${ENV:default} placeholders in the default ini are expanded by the ini module from the environment"]
 THOROUGH_CONFIGS = [["-UNDEBUG", "-DPIKA_DEBUG"]]
-FLOORS = {"C16.R1": 11, "C16.R2": 10, "C16.R3": 8, "C16.R4": 3, "C16.R6": 1, "C16.R7": 1}
+FLOORS = {"C16.R1": 11, "C16.R2": 10, "C16.R3": 8, "C16.R4": 3, "C16.R6": 1, "C16.R7": 1, "C16.R8": 1}
 
 SETTINGS = [  # (command line option, ini key, environment variable, handler)
     ("pika:threads", "pika.os_threads", "PIKA_THREADS", "handle_num_threads"),
@@ -61,6 +61,8 @@ def run(rep, tier):
     rep.rule("C16.R5", "K8 (writer/reader agreement): the stack-size defaults the configuration writes (hexadecimal literals) are parsed by a reader that accepts that notation; a value that does not parse is not replaced silently by a different number")
     rep.rule("C16.R6", "K2/K8: precedence between PIKA_COMMANDLINE_OPTIONS and the command line: the two token sources are not handed to one parser run as a plain "
              "concatenation while single-valued options exist (one run rejects a repeated single-valued option instead of letting the command line win)")
+    rep.rule("C16.R8", "K7/K8 (decision chain): partitioner::setup_schedulers maps the resolved pika.scheduler value to the policy of that name - each name test assigns the enum of the "
+             "same name, and no full name is a prefix of a name tested before it (prefix tests accept abbreviations, so order decides)")
     rep.rule("C16.R7", "K4 (must-check, may-analysis): the resolved worker count is the one the runtime uses - the resource partitioner's setup_pools reaches its exit only over the "
              "'equal' edge of a comparison between the threads assigned to the pools and pika.os_threads (or with over-subscription allowed)")
     rep.rule("C16.R4", "K2: prepend_options puts PIKA_COMMANDLINE_OPTIONS before argv; preliminary parse + handle_arguments precede reconfigure")
@@ -518,6 +520,52 @@ def run(rep, tier):
         rep.bad("C16.R7", sp, sp.loc, "thread-count-unchecked", "the thread pools are set up without comparing the number of threads assigned to them with the resolved pika.os_threads "
                 "(only an assertion in get_num_threads does, and it is compiled out): with --pika:bind=none every PU takes one thread, so --pika:threads=<#PUs + 1> "
                 "silently starts #PUs workers while the configuration reports #PUs + 1")
+
+    # ---- R8: the resolved scheduler name selects the policy of that name.  setup_schedulers tests 'value is a prefix of
+    # NAME' in sequence (abbreviations are allowed), so the order matters: a full name that is itself a prefix of a name
+    # tested earlier (local / local-priority-fifo, static / static-priority) would select the earlier policy.
+    RS = facts(rep, lib("resource_partitioner", "src/detail_partitioner.cpp"), [r"^pika::resource::detail::partitioner::setup_schedulers$"])
+    ss_ = [f for f in RS.find(r"partitioner::setup_schedulers$") if f.parent == -1]
+    if len(ss_) != 1:
+        raise AnalysisBroken("partitioner::setup_schedulers not found")
+    ss_ = ss_[0]
+    chain = []
+    b = ss_.entry
+    seen_b = set()
+    while b is not None and b not in seen_b:
+        seen_b.add(b)
+        blk = ss_.blocks[b]
+        nxt = None
+        if blk.cond is not None:
+            lits = literals(blk.cond)
+            a, pos = cond_atoms(blk.cond)
+            if len(lits) == 1 and ".find(" in a:
+                tdst = [t for l, t, _ in blk.succ if (l == "true") == pos]
+                fdst = [t for l, t, _ in blk.succ if (l == "true") != pos]
+                pol = None
+                if tdst:
+                    for e in ss_.blocks[tdst[0]].events:
+                        if e.get("k") == "write" and strip(e.get("rhs") or {}).get("k") == "enum":
+                            pol = strip(e["rhs"]).get("name") or T(e["rhs"]).rsplit("::", 1)[-1]
+                here = [loc_of(e) for e in blk.events if str(e.get("loc", "")).startswith("/repo/")]
+                chain.append((lits[0], pol, here[-1] if here else ss_.loc))
+                nxt = fdst[0] if fdst else None
+        if nxt is None:
+            succ = [t for l, t, _ in blk.succ]
+            nxt = succ[0] if len(succ) == 1 else None
+        b = nxt
+    if len(chain) < 6:
+        raise AnalysisBroken("setup_schedulers: name tests not recognised (%d)" % len(chain))
+    shadow = [(ni, nj, lj) for i_, (ni, pi_, li) in enumerate(chain) for nj, pj, lj in chain[i_ + 1:] if ni.startswith(nj) and ni != nj]
+    wrong = [(n_, p_, l_) for n_, p_, l_ in chain if p_ is None or p_.rstrip("_").replace("_", "-") != n_]
+    if shadow:
+        ni, nj, lj = shadow[0]
+        rep.bad("C16.R8", ss_, lj, "scheduler-name-shadowed:" + nj, "the scheduler name '%s' is tested after '%s', of which it is a prefix: the prefix test for '%s' already accepts the value '%s', so "
+                "--pika:scheduler=%s (from any source) silently runs the %s policy while the configuration reports %s" % (nj, ni, ni, nj, nj, ni, nj))
+    elif wrong:
+        rep.bad("C16.R8", ss_, wrong[0][2], "scheduler-name-policy:" + wrong[0][0], "the scheduler name '%s' selects policy %s" % (wrong[0][0], wrong[0][1]))
+    else:
+        rep.ok("C16.R8", ss_, "%d scheduler names: each selects the policy of its name, and no name is shadowed by an earlier prefix test" % len(chain), sites=len(chain))
 
     # ---- R5: the reader of pika.stacks.*_size understands what the defaults table writes
     SS = facts(rep, lib("runtime_configuration", "src/runtime_configuration.cpp"), [r"runtime_configuration::init_(\w+_)?stack_size$"])
